@@ -2,6 +2,7 @@ package main
 
 import (
 	"fmt"
+	nurl "net/url"
 	"strings"
 
 	distiller "github.com/markusmobius/go-domdistiller"
@@ -37,6 +38,7 @@ var embPaths = []embPath{
 	{"/embed/", "container-only"}, {"/video/", "container-only"}, {"/", "root"}, {"/x?u=http://youtube.com/embed/ID", "name-in-query"}, {"/youtube.com/embed/ID", "name-in-path"}, {"/player.vimeo.com/video/ID", "name-in-path"},
 	{"/user/status/ID", "status-id"}, {"/embed/ID?start=30&autoplay=1#t", "embed-id-params"},
 	{"", "empty-path"}, {"?rel=0", "query-only"},
+	{"/user/status/ID/photo/1", "status-id-photo"}, {"/user/status/ID/video/1", "status-id-video"}, {"/watch?v=ID", "watch-query"}, {"/watch?feature=share&v=ID", "watch-query"},
 	{"/video/ID#t=1m2s", "video-id-fragment"}, {"/embed/ID#/foo/bar", "embed-id-fragment-path"}, {"/user/status/ID#m", "status-id-fragment"},
 }
 
@@ -105,10 +107,31 @@ func (e embCase) lastSegment() string {
 	if e.service() == "youtube" && !strings.Contains(p, "?") {
 		p = strings.Replace(p, "&", "?", 1) // flash-style YouTube URL /v/ID&x=1: parameters start at the first &
 	}
+	query := ""
 	if i := strings.IndexAny(p, "?#"); i >= 0 {
+		if p[i] == '?' {
+			query = p[i+1:]
+			if j := strings.Index(query, "#"); j >= 0 {
+				query = query[:j]
+			}
+		}
 		p = p[:i]
 	}
 	segs := strings.Split(p, "/")
+	switch e.service() {
+	case "twitter": // the tweet id follows "status"; what comes after it names a photo or video of the tweet
+		for i := 0; i+1 < len(segs); i++ {
+			if segs[i] == "status" && segs[i+1] != "" {
+				return segs[i+1]
+			}
+		}
+	case "youtube": // a watch page carries the id in its query
+		if strings.TrimSuffix(p, "/") == "/watch" {
+			if q, err := nurl.ParseQuery(query); err == nil {
+				return q.Get("v")
+			}
+		}
+	}
 	for i := len(segs) - 1; i >= 0; i-- {
 		if s := strings.TrimSpace(segs[i]); s != "" {
 			return s
@@ -175,7 +198,7 @@ func genEmbedDoc(r *RNG) string {
 func init() {
 	register(&Prop{
 		ID:   "C19",
-		Rule: "full grid every run: 30 hosts (allow-listed roots, their subdomains, suffix look-alikes youtube.com.evil.example, prefix look-alikes evilyoutube.com / xplayer.vimeo.com, vimeo.com itself, userinfo tricks youtube.com@evil.example, upper case, port, trailing dot) x 19 path/query shapes (incl. fragments after the id, no path at all) (/embed/ID, /embed/ID/, /v/ID&x=1, /v/ID?x=1, /video/ID, /ID, container only, root, service name only in path or query, /user/status/ID, parameters+fragment) x 8 source forms (javascript:// and data:// URLs with a host-looking part, https, http, scheme-relative, relative with the page on / off the allow list, host name without scheme = relative path) x 12 carriers (a tweet quote whose noscript fallback is a foreign frame, a figure whose picture holds an iframe next to its image, an iframe with srcdoc, a tweet quote whose inert text re-parses into a frame, iframe, object[data], object>param[name=movie], rendered twitter iframe with data-tweet-id, twitter blockquote with the tweet link as last anchor, the same with foreign iframes/objects nested inside, an iframe whose src is foreign while the allow-listed URL sits in data-src, iframes among the children of a <picture>) = 38080 cases, each between two long paragraphs (quick) and additionally inside random articles (thorough). Oracle: a placeholder may exist only if the TRUE host (known by construction) is allow-listed; its data-type must be that service and data-id the id encoded in the URL (last path segment, resp. data-tweet-id); no bare <iframe> may survive. Non-trivial = every grid cell; distinct = distinct cells.",
+		Rule: "full grid every run: 30 hosts (allow-listed roots, their subdomains, suffix look-alikes youtube.com.evil.example, prefix look-alikes evilyoutube.com / xplayer.vimeo.com, vimeo.com itself, userinfo tricks youtube.com@evil.example, upper case, port, trailing dot) x 23 path/query shapes (incl. fragments after the id, no path at all, /status/ID/photo/1, /watch?v=ID) (/embed/ID, /embed/ID/, /v/ID&x=1, /v/ID?x=1, /video/ID, /ID, container only, root, service name only in path or query, /user/status/ID, parameters+fragment) x 8 source forms (javascript:// and data:// URLs with a host-looking part, https, http, scheme-relative, relative with the page on / off the allow list, host name without scheme = relative path) x 12 carriers (a tweet quote whose noscript fallback is a foreign frame, a figure whose picture holds an iframe next to its image, an iframe with srcdoc, a tweet quote whose inert text re-parses into a frame, iframe, object[data], object>param[name=movie], rendered twitter iframe with data-tweet-id, twitter blockquote with the tweet link as last anchor, the same with foreign iframes/objects nested inside, an iframe whose src is foreign while the allow-listed URL sits in data-src, iframes among the children of a <picture>) = 38080 cases, each between two long paragraphs (quick) and additionally inside random articles (thorough). Oracle: a placeholder may exist only if the TRUE host (known by construction) is allow-listed; its data-type must be that service and data-id the id encoded in the URL (last path segment, resp. data-tweet-id); no bare <iframe> may survive. Non-trivial = every grid cell; distinct = distinct cells.",
 		Assumptions: []string{
 			"'only if': an allow-listed source that is not turned into a placeholder (port, case, unsupported carrier) is not a violation",
 			"the id 'taken from the URL' is the last non-empty path segment (not the container words embed/video), for rendered tweets the data-tweet-id attribute",
